@@ -108,7 +108,7 @@ def _lock():
     return f
 
 
-def build(flavour="std", harness=("impl_driver",), want_binary=True, log=None):
+def build(flavour="std", harness=("impl_kick",), want_binary=True, log=None):
     """Returns dict with paths: 'inovesa', and one entry per harness program."""
     lk = _lock()
     try:
@@ -126,15 +126,17 @@ def build(flavour="std", harness=("impl_driver",), want_binary=True, log=None):
         targets = {}
         if want_binary:
             targets["inovesa"] = os.path.join(outdir, "inovesa")
+        common = b"".join(read(p) for p in sorted(glob.glob(os.path.join(VERIF, "harness", "*.hpp"))))
         for h in harness:
-            hk = sha(read(hsrcs[h]))[:10]
+            hk = sha(read(hsrcs[h]), common)[:10]
             targets[h] = os.path.join(outdir, h + "-" + hk)
         if all(os.path.exists(t) for t in targets.values()):
             return targets
         t0 = time.time()
         with ThreadPoolExecutor(max_workers=16) as ex:
             futs = {s: ex.submit(_compile, s, flags, incs, hh) for s in srcs}
-            hf = {h: ex.submit(_compile, hsrcs[h], flags, incs, hh) for h in harness}
+            hf = {h: ex.submit(_compile, hsrcs[h], flags, incs + ["-I" + os.path.join(VERIF, "harness")], hh,
+                               sha(common)) for h in harness}
             objs = {s: f.result() for s, f in futs.items()}
             hobjs = {h: f.result() for h, f in hf.items()}
         lib = [o for s, o in objs.items() if not s.endswith("/main.cpp")]
